@@ -19,6 +19,19 @@
                 accesses through LazyContourList (max_events 1..5, n-1, n, n+3, None) and through
                 ds["contour"] of mask-only in-memory datasets (also > 1000 events, the default
                 cache): every returned contour equals get_contour(mask[i]) and refills to ITS mask.
+                In about half of the histories 1-3 events have no contour (empty mask, isolated
+                single pixels, the whole image): an access that covers such an event must raise,
+                every other access - in particular re-accesses of events computed after a failure -
+                still returns the contour of its own event; the history is also run through the
+                Lean model of the two deques (`lclGet`): outcomes and cached events (mirror); the
+                number of masks read (route "indexable": a counting container) is only reported.
+Model functions added in session 4 and their correspondence: `correctChannel` / `twoChannel`
+(part E: fl_channel = 1, 2, 3 and invalid channels; two-channel pairs 12/13/23, receiver-only
+channels, triangular and one-way matrices), `brightBcBatch` / `brightPercBatch` (part D: whole
+batch calls with every offset container, ret_data variants, offsets of the wrong length),
+`rotatedSecond` / `prncSq` (part B: get_inert_ratio_prnc on every region-like contour),
+`lclGet` / `lclRun` (part F, flattened integer accesses) and `lclGetMany` / `lclOp` / `lclOps`
+(part F, the history with its slices and index arrays).
 """
 import math
 from fractions import Fraction
@@ -39,9 +52,17 @@ RULE = ("A: masks = blobs grown from a seed pixel (8-neighbourhood, holes filled
         "range incl. >= 32768 and 65535, int16, int32, float32, float64; full/upper/lower/top/"
         "bottom/const/near value styles, backgrounds above the image) with shape masks, offsets in "
         "9 container kinds incl. 1e6, -2^31, 1e-12; exact-rational reference. E: non-negative spill matrices with |det| >= 0.05, signals up to 1e4, "
-        "plus negative / singular / two-channel matrices. F: access histories of 10-60 operations "
-        "over 3-14 pairwise different masks, max_events in {1..5, n-1, n, n+3, None, 0}, routes "
-        "list / 3-D array / ds['contour'] (deques shrunk), and datasets of 1020-1120 events with the "
+        "plus negative / singular / two-channel (pairs 12, 13, 23) / receiver-only (one channel "
+        "receives spill but emits none) / triangular / one-way matrices; every case is evaluated for "
+        "fl_channel 1, 2, 3 (and 0, 4 now and then). D also: whole batch calls vs the batch model, "
+        "ret_data in {avg, sd, 'sd,avg', none} on every third case, offset arrays of a wrong length on "
+        "every third case. F: access histories of 10-60 operations "
+        "over 3-14 pairwise different masks, of which in ~55 % of the histories 1-3 are replaced by "
+        "masks without contour (empty, single pixel inside / on the border, isolated pixels, full "
+        "image), op alphabet incl. accesses to the failing events and re-accesses of events computed "
+        "after a failure, max_events in {1..5, n-1, n, n+3, None, 0}, routes "
+        "list / 3-D array / counting indexable container / ds['contour'] (deques shrunk), and "
+        "datasets of 1020-1120 events with the "
         "default cache of 1000; non-trivial when max_events < number of events. Implementation vs Lean model to 1e-9 "
         "relative (relative to the magnitude of the cancelling terms for central moments).")
 TRUSTED_BASE = [
@@ -50,10 +71,21 @@ TRUSTED_BASE = [
     "marching squares (_find_contours_cy, compiled) is exercised through the .so only and compared "
     "with an independent crack-following tracer in harness/c18_util.py (DESIGN 6.1)",
     "pi, sqrt, atan2, cos, sin are parameters of / outside the model (the inertia ratio is "
-    "modelled by its square)"]
+    "modelled by its square; the rotation of get_inert_ratio_prnc enters the model as the pair "
+    "(cos, sin) which the harness computes from the code's own moments)",
+    "LazyContourList: the harness reads the public attribute `indices` (and replaces the deques "
+    "`contours`/`indices` of ds['contour'] to get a small cache); when they are not exposed the "
+    "comparisons that need them are skipped with a NOTE. get_contour of the model is an arbitrary "
+    "function Nat -> Except E C (which events fail is an input)",
+    "NumPy in-place broadcasting of `avg -= bg_off` (equal length or length one, otherwise "
+    "ValueError) is modelled by `subOff`, not verified"]
 ASSUMPTIONS = [
     "masks are connected in the 8-neighbourhood, hole-free in the sense of binary_fill_holes, "
     "and have at least two pixels (a single pixel has no contour: NoValidContourFoundError)",
+    "events without contour (empty mask, isolated single pixels, full image) are outside the domain "
+    "of the contour statements; for them the only demands are: an access through LazyContourList / "
+    "ds['contour'] raises (the exception class is reported in a NOTE, not judged) and it does not "
+    "disturb what is returned for the other events",
     "border-touching masks: the refill identity is demanded when every mask pixel on the image "
     "border still has a background 4-neighbour inside the image and marching squares returns a "
     "single contour; otherwise the contour is an open curve (observation O11, NOTE line) and only "
@@ -70,12 +102,21 @@ ASSUMPTIONS = [
 NOT_PROVED = [
     "fill(get_contour(mask)) == mask over ALL connected hole-free masks (marching squares is "
     "compiled; digital-topology theorem) - correspondence with an independent tracer only",
-    "rotation invariance and >= 1 of inert_ratio_prnc (atan2/sqrt/cos/sin) - metamorphic only",
+    "inert_ratio_prnc: rotation invariance and >= 1 are theorems for the squared ratio and rational "
+    "rotations (rotate_invariants, prnc_sq_ge_one, prnc_rotation_invariant); that arctan2/cos/sin "
+    "deliver the principal angle, the polar-coordinate rotation in float64, the final sqrt and the "
+    "float32 result are correspondence/metamorphic only (1e-6)",
     "convergence of the discretised sphere/spheroid volume to the analytic value "
     "(|err| <= 1.6/r, halving with doubling r) - measured only",
     "inert_ratio_cvx (scipy.spatial.ConvexHull/qhull) and tilt (atan2) - not modelled",
     "the orientation test of get_volume(fix_orientation=True) (np.unwrap/atan2) is a parameter of "
-    "the model; that it recognises clockwise contours is checked on star-shaped contours only"]
+    "the model; that it recognises clockwise contours is checked on star-shaped contours only",
+    "LazyContourList: the index arithmetic of slices / index arrays (np.arange(len)[idx]) is done "
+    "by the harness (the model's `lclGetMany` receives the selected events), the `Event idx, ...` "
+    "decoration of the exception text is not in the model; the cache policy (which events stay "
+    "cached) is compared with the model as impl-mirror only",
+    "the `ret_data` parsing of get_bright_bc by substring tests ('avg' in ret_data) is represented "
+    "by two booleans; min(len(mask), len(image), len(image_bg)) truncation is not modelled"]
 
 MOM_KEYS = ["m00", "m10", "m01", "m20", "m11", "m02", "m30", "m21", "m12", "m03",
             "mu20", "mu11", "mu02", "mu30", "mu21", "mu12", "mu03"]
@@ -438,6 +479,45 @@ def gen_polygon(rng):
     return kind, c
 
 
+def prnc_job(ctx, M, jobs, c, m):
+    """`get_inert_ratio_prnc` vs the model (`rotatedSecond` / `prncSq`): the model rotates the
+    contour exactly by (cos, sin) of the angle orient + pi/2 that the code derives from its own
+    moments (atan2/cos/sin are evaluated here, they are parameters of the model) and returns the
+    second central moments of the rotated contour; sqrt(mu20/mu02) must be the code's result"""
+    fi = M["inert"]
+    if m is None or len(c) < 3:
+        return
+    region_like = m["mu20"] > 0 and m["mu02"] > 0 and m["mu20"] * m["mu02"] > m["mu11"] ** 2
+    r = guarded(fi.get_inert_ratio_prnc, c)
+    if not region_like or r[0] != "ok" or not np.isfinite(r[1]):
+        return
+    p0 = float(r[1])
+    tr = (m["mu20"] + m["mu02"]) / 2
+    lmin = tr - math.sqrt(((m["mu20"] - m["mu02"]) / 2) ** 2 + m["mu11"] ** 2)
+    L = max(1.0, float(np.abs(c).max()))
+    ptol = 1e-6 + 4 * 2.2e-16 * L ** 4 / max(lmin, 1e-300)
+    if ptol > 0.1:
+        return
+    alpha = 0.5 * math.atan2(2 * m["mu11"], m["mu02"] - m["mu20"]) + math.pi / 2
+    co, si = math.cos(alpha), math.sin(alpha)
+    ctx.stat("B:prnc-vs-model")
+
+    def cbp(ans, p0=p0, ptol=ptol, c=c, m=m):
+        rp = {"part": "B", "cont": c.tolist(), "dtype": c.dtype.str}
+        if ans == "none":
+            return ("get_inert_ratio_prnc vs model", repr(p0), "none", rp)
+        m00, mu20, mu11, mu02 = [float(U.unrat(v)) for v in ans.split()]
+        if not U.close_to(m00, m["m00"], 1e-9, scale=mom_scale(c, "m00")):
+            return ("area of the rotated contour (model) vs cont_moments_cv", repr(m["m00"]),
+                    repr(m00), rp)
+        if mu02 <= 0 or mu20 <= 0:
+            return None                       # ill-conditioned: no principal ratio to compare
+        if not U.close_to(p0, math.sqrt(mu20 / mu02), ptol):
+            return ("get_inert_ratio_prnc vs model", repr(p0), repr(math.sqrt(mu20 / mu02)), rp)
+    jobs.add(f"prnc {U.rat(co)} {U.rat(si)} {U.rat(U.FLT_EPS)} {U.rat(U.DBL_EPS)} "
+             + U.pts_line(c), cbp)
+
+
 def part_b(ctx, M, jobs, conts):
     fi = M["inert"]
     cases = [("mask:" + k, np.asarray(c)) for k, _, c in conts]
@@ -491,6 +571,7 @@ def part_b(ctx, M, jobs, conts):
                     return ("get_inert_ratio_raw vs model", repr(raw[1]), repr(math.sqrt(irsq)), rp)
             return None
         jobs.add(f"mom {U.rat(U.FLT_EPS)} {U.rat(U.DBL_EPS)} " + U.pts_line(c), cb)
+        prnc_job(ctx, M, jobs, c, m)
 
 
 # =============================================================================================
@@ -1024,6 +1105,116 @@ def shrink_bright(M, case):
     return c
 
 
+def off_token(kind, values):
+    """the `bg_off` argument as the batch model sees it: none / scalar / 1-D array"""
+    if kind == "none":
+        return "-"
+    if kind in ("float", "npfloat"):
+        return "s:" + U.rat(float(values[0]))
+    if kind == "int":
+        return "s:" + U.rat(int(values[0]))
+    if kind == "zero":
+        return "s:0"
+    return "a:" + ",".join(U.rat(float(v)) for v in values)
+
+
+def batch_jobs(ctx, M, jobs, case, out, cno):
+    """batch model (`brightBcBatch` / `brightPercBatch`): the whole call with its offset container,
+    the `ret_data` variants (oracle: the combined call is the pair of the single calls, the sd call
+    ignores the offset) and offset arrays of the wrong length"""
+    fbc, fbp = M["bright_bc"], M["bright_perc"]
+    masks, imgs, bgs = case["masks"], case["imgs"], case["bgs"]
+    n = len(masks)
+    kind, values = case["off_kind"], case["off_values"]
+    am, ai, ab = (np.array(masks), np.array(imgs), np.array(bgs)) if case["stack"] == "array3d" \
+        else (list(masks), list(imgs), list(bgs))
+    off = None if kind == "none" else make_offset("array" if kind == "feature" else kind, values)
+    rp = bright_payload(case)
+    sc = max(bright_scale(im, bg) for im, bg in zip(imgs, bgs))
+    evs = " | ".join(" ".join(f"{int(a)}:{U.rat(px_value(b, True))}:{U.rat(px_value(c, False))}"
+                              for a, b, c in zip(mk.ravel(), im.ravel(), bg.ravel()))
+                     for mk, im, bg in zip(masks, imgs, bgs))
+    tok = off_token(kind, values)
+
+    def parse(ans):
+        """'A a1 .. S v1 .. P10 .. P90 ..' -> dict tag -> floats (S: sqrt of the variance)"""
+        res, tag = {}, None
+        for t in ans.split():
+            if t in ("A", "S", "P10", "P90"):
+                tag = t
+                res[tag] = []
+            else:
+                v = U.unrat(t)
+                res[tag].append(math.sqrt(v) if tag == "S" else float(v))
+        return res
+
+    def compare(what, impl, tags):
+        """impl: list of arrays in the order of `tags` or an error class"""
+        def cb(ans, impl=impl, tags=tags, what=what):
+            if isinstance(impl, str) or ans.startswith("err"):
+                if isinstance(impl, str) and ans.startswith("err"):
+                    return None                  # both reject (the exception class is not compared)
+                return (what + " vs batch model", repr(impl)[:80], ans[:80], rp)
+            res = parse(ans)
+            if sorted(res) != sorted(tags):
+                return (what + " vs batch model (selected metrics)", str(tags), str(sorted(res)), rp)
+            for t, got in zip(tags, impl):
+                got = np.atleast_1d(np.asarray(got, dtype=float))
+                if len(got) != len(res[t]) or not all(
+                        U.close_to(a, b, 1e-9, scale=sc) for a, b in zip(got, res[t])):
+                    return (f"{what} [{t}] vs batch model", repr(got.tolist()), repr(res[t]), rp)
+        return cb
+    jobs.add(f"brightb 1 1 {tok} | {evs}", compare("get_bright_bc(batch)", out["bc"], ["A", "S"]))
+    jobs.add(f"percb {tok} | {evs}", compare("get_bright_perc(batch)", out["pc"], ["P10", "P90"]))
+    if cno % 3 == 0:
+        # ret_data variants on the implementation
+        ctx.stat("D:ret_data-variants")
+        both = out["bc"]
+        for rd, sel in (("avg", [0]), ("sd", [1]), ("sd,avg", [0, 1])):
+            r = guarded(fbc.get_bright_bc, am, ai, ab, bg_off=off, ret_data=rd)
+            if r[0] != "ok":
+                ctx.violation("spec", f"get_bright_bc(ret_data={rd!r}) raised {r[1]} although the "
+                                      f"combined call works", rp)
+                return
+            got = [r[1]] if len(sel) == 1 else list(r[1])
+            for g, k in zip(got, sel):
+                g = np.atleast_1d(np.asarray(g, dtype=float))
+                if g.shape != both[k].shape or not np.allclose(g, both[k], rtol=1e-12, atol=1e-9,
+                                                               equal_nan=True):
+                    ctx.violation("spec", f"get_bright_bc(ret_data={rd!r}) = {g.tolist()} differs from "
+                                          f"the {'avg' if k == 0 else 'sd'} of the combined call "
+                                          f"({both[k].tolist()})", rp)
+                    return
+        jobs.add(f"brightb 1 0 {tok} | {evs}", compare("get_bright_bc(ret_data='avg')",
+                                                         [out["bc"][0]], ["A"]))
+        jobs.add(f"brightb 0 1 {tok} | {evs}", compare("get_bright_bc(ret_data='sd')",
+                                                         [out["bc"][1]], ["S"]))
+        r = guarded(fbc.get_bright_bc, am, ai, ab, bg_off=off, ret_data="none")
+        jobs.add(f"brightb 0 0 {tok} | {evs}",
+                 compare("get_bright_bc(ret_data without avg/sd)",
+                         r[1] if r[0] == "exc" else [np.atleast_1d(r[1])], []))
+    if cno % 3 == 1:
+        # offset arrays whose length is neither the number of events nor one
+        ctx.stat("D:offset-length-mismatch")
+        k = n + 1 if n < 3 or ctx.rng.random() < 0.5 else n - 1
+        if k == 1:
+            k = n + 1
+        wrong = [float(ctx.rng.randint(-9, 9)) for _ in range(k)]
+        wtok = "a:" + ",".join(U.rat(v) for v in wrong)
+        r = guarded(fbc.get_bright_bc, am, ai, ab, bg_off=np.array(wrong))
+        jobs.add(f"brightb 1 1 {wtok} | {evs}",
+                 compare("get_bright_bc(bg_off of wrong length)",
+                         r[1] if r[0] == "exc" else [np.asarray(x) for x in r[1]], ["A", "S"]))
+        r = guarded(fbp.get_bright_perc, am, ai, ab, bg_off=np.array(wrong))
+        jobs.add(f"percb {wtok} | {evs}",
+                 compare("get_bright_perc(bg_off of wrong length)",
+                         r[1] if r[0] == "exc" else [np.asarray(x) for x in r[1]], ["P10", "P90"]))
+        r = guarded(fbc.get_bright_bc, am, ai, ab, bg_off=np.array(wrong), ret_data="sd")
+        jobs.add(f"brightb 0 1 {wtok} | {evs}",
+                 compare("get_bright_bc(ret_data='sd', bg_off of wrong length)",
+                         r[1] if r[0] == "exc" else [np.atleast_1d(r[1])], ["S"]))
+
+
 def part_d(ctx, M, jobs):
     for i in range(ctx.n(250, 2500)):
         case = gen_bright_case(ctx.rng, ctx.thorough)
@@ -1097,6 +1288,7 @@ def part_d(ctx, M, jobs):
                         return (f"{name} vs model", repr(a), repr(b), rp)
             jobs.add(f"bright {'-' if eff[j] is None else U.rat(eff[j])} " + px, cb)
             jobs.add("bright - " + px0, cb0)
+        batch_jobs(ctx, M, jobs, case, out, i)
     # np.percentile's linear rule at other q (model of `percentile`)
     for _ in range(ctx.n(40, 400)):
         k = ctx.rng.randint(1, 30)
@@ -1117,14 +1309,32 @@ def part_e(ctx, M, jobs):
     ct = M["ct"]
     names = ["ct21", "ct31", "ct12", "ct32", "ct13", "ct23"]
     for i in range(ctx.n(400, 4000)):
-        mode = ctx.rng.choice(["full", "full", "full", "two", "sparse", "negative", "singular",
-                               "zero"])
+        mode = ctx.rng.choice(["full", "full", "full", "two", "two", "sparse", "negative", "singular",
+                               "zero", "receiver", "receiver", "triangular", "one-way"])
+        pair = None                      # (a, b, other): the two channels that exchange spill
         if mode == "full":
             c = {k: ctx.rng.choice([ctx.rng.uniform(0, 0.9), round(ctx.rng.uniform(0, 1), 2)])
                  for k in names}
-        elif mode == "two":
+        elif mode in ("two", "receiver"):
+            # two channels a, b exchange spill; "receiver": the third channel additionally RECEIVES
+            # spill from a and/or b but emits none (its row of the spill matrix is the unit row)
             c = dict.fromkeys(names, 0.0)
-            c["ct21"], c["ct12"] = ctx.rng.uniform(0, 0.9), ctx.rng.uniform(0, 0.9)
+            pair = ctx.rng.choice([(1, 2, 3), (1, 3, 2), (2, 3, 1)])
+            a, b, o = pair
+            c[f"ct{a}{b}"], c[f"ct{b}{a}"] = ctx.rng.uniform(0, 0.9), ctx.rng.uniform(0, 0.9)
+            if ctx.rng.random() < 0.2:
+                c[ctx.rng.choice([f"ct{a}{b}", f"ct{b}{a}"])] = 0.0
+            if mode == "receiver":
+                c[f"ct{a}{o}"] = ctx.rng.choice([0.0, ctx.rng.uniform(0.05, 0.9), 0.5])
+                c[f"ct{b}{o}"] = ctx.rng.uniform(0.05, 0.9)
+        elif mode == "triangular":
+            # spill in one direction only (upper or lower triangular matrix): det = 1
+            up = ctx.rng.random() < 0.5
+            c = {k: ((ctx.rng.uniform(0, 1.5) if ctx.rng.random() < 0.8 else 0.0)
+                     if (int(k[2]) < int(k[3])) == up else 0.0) for k in names}
+        elif mode == "one-way":
+            c = dict.fromkeys(names, 0.0)
+            c[ctx.rng.choice(names)] = ctx.rng.uniform(0.05, 1.5)
         elif mode == "sparse":
             c = {k: (ctx.rng.uniform(0, 1.5) if ctx.rng.random() < 0.4 else 0) for k in names}
         elif mode == "negative":
@@ -1156,7 +1366,7 @@ def part_e(ctx, M, jobs):
         outs = [guarded(ct.correct_crosstalk, fl[0], fl[1], fl[2], ch, **c) for ch in (1, 2, 3)]
         ctx.stat("E:" + mode)
         ctx.case(("E", tuple(sorted(c.items())), tuple(map(tuple, x))),
-                 nontrivial=mode in ("full", "two", "sparse"),
+                 nontrivial=mode in ("full", "two", "sparse", "receiver", "triangular", "one-way"),
                  sample={"part": "E", "mode": mode, "ct": c, "x": [v[0] for v in x]})
         rp = {"part": "E", "ct": c, "x": x, "y": y}
         kinds = {o[1] if o[0] == "exc" else "ok" for o in outs}
@@ -1196,6 +1406,50 @@ def part_e(ctx, M, jobs):
                         return ("correct_crosstalk vs model", repr(want), repr(mv), rp)
             jobs.add("comp " + " ".join(U.rat(c[n_]) for n_ in names) + " "
                      + " ".join(U.rat(y[j][e]) for j in range(3)), cb)
+        # per-channel model (`correctChannel`): fl_channel = 1, 2, 3 on the first event
+        scale_e = max(max(abs(v) for v in row) for row in x) + 1.0
+        for ch in (1, 2, 3):
+            o = outs[ch - 1]
+            want1 = o[1] if o[0] == "exc" else float(np.atleast_1d(o[1])[0])
+
+            def cbc(ans, want1=want1, rp=rp, ch=ch, scale_e=scale_e):
+                if ans.startswith("err") or isinstance(want1, str):
+                    return None if ans == want1 else (
+                        f"correct_crosstalk(fl_channel={ch}) vs model", str(want1), ans, rp)
+                mv = float(U.unrat(ans))
+                if not U.close_to(want1, mv, 1e-9, scale=abs(mv) + scale_e):
+                    return (f"correct_crosstalk(fl_channel={ch}) vs model", repr(want1), repr(mv), rp)
+            jobs.add(f"compch {ch} " + " ".join(U.rat(c[n_]) for n_ in names) + " "
+                     + " ".join(U.rat(y[j][0]) for j in range(3)), cbc)
+        if i % 40 == 0:
+            # channel numbers other than 1, 2, 3 are rejected before anything is computed
+            for ch in (0, 4):
+                r = guarded(ct.correct_crosstalk, fl[0], fl[1], fl[2], ch, **c)
+                w = r[1] if r[0] == "exc" else "ok"
+
+                def cbx(ans, w=w, rp=rp, ch=ch):
+                    if ans.startswith("err") != w.startswith("err"):   # class not compared
+                        return (f"correct_crosstalk(fl_channel={ch}) vs model", w, ans, rp)
+                ctx.stat("E:invalid-channel")
+                jobs.add(f"compch {ch} " + " ".join(U.rat(c[n_]) for n_ in names) + " "
+                         + " ".join(U.rat(y[j][0]) for j in range(3)), cbx)
+        if pair is not None and kinds == {"ok"}:
+            # closed 2x2 form (`twoChannel`) for the two channels that exchange spill
+            a, b, _o = pair
+            wa = float(np.atleast_1d(outs[a - 1][1])[0])
+            wb = float(np.atleast_1d(outs[b - 1][1])[0])
+
+            def cb2(ans, wa=wa, wb=wb, rp=rp, pair=pair):
+                if ans.startswith("err"):
+                    return ("two-channel closed form vs correct_crosstalk", repr((wa, wb)), ans, rp)
+                ma, mb = [float(U.unrat(v)) for v in ans.split()]
+                sc2 = max(abs(ma), abs(mb)) + 1.0
+                if not (U.close_to(wa, ma, 1e-9, scale=sc2) and U.close_to(wb, mb, 1e-9, scale=sc2)):
+                    return (f"two-channel closed form (channels {pair[0]},{pair[1]}) vs "
+                            f"correct_crosstalk", repr((wa, wb)), repr((ma, mb)), rp)
+            ctx.stat(f"E:pair={a}{b}")
+            jobs.add("two " + U.rat(c[f"ct{a}{b}"]) + " " + U.rat(c[f"ct{b}{a}"]) + " "
+                     + U.rat(y[a - 1][0]) + " " + U.rat(y[b - 1][0]), cb2)
         # the model's spill is the matrix product used above
         flat = [C[0][0], C[0][1], C[0][2], C[1][0], C[1][1], C[1][2], C[2][0], C[2][1], C[2][2]]
         yy = [sum(Fraction(x[i][0]) * C[i][j] for i in range(3)) for j in range(3)]
@@ -1234,13 +1488,77 @@ def distinct_masks(rng, n, shape):
     return out
 
 
-def gen_access_ops(rng, nm, nops, cached):
-    """op alphabet of the access histories; `cached()` returns the currently cached indices"""
+FAIL_KINDS = ["empty", "single", "single-border", "isolated", "full"]
+
+
+def degenerate_mask(rng, shape):
+    """a mask outside the property's domain (no pixel, isolated single pixels, the whole image):
+    `get_contour` has no contour to return for it and raises"""
+    h, w = shape
+    kind = rng.choice(FAIL_KINDS)
+    m = np.zeros(shape, dtype=bool)
+    if kind == "single":
+        m[rng.randrange(1, h - 1), rng.randrange(1, w - 1)] = True
+    elif kind == "single-border":
+        r, c = rng.choice([(0, rng.randrange(w)), (h - 1, rng.randrange(w)),
+                           (rng.randrange(h), 0), (rng.randrange(h), w - 1)])
+        m[r, c] = True
+    elif kind == "isolated":
+        for _ in range(rng.randint(2, 3)):
+            r, c = rng.randrange(h), rng.randrange(w)
+            if not m[max(0, r - 2):r + 3, max(0, c - 2):c + 3].any():
+                m[r, c] = True
+        if not m.any():
+            m[h // 2, w // 2] = True
+    elif kind == "full":
+        m[:] = True
+    return kind, np.ascontiguousarray(m)
+
+
+def fresh_contours(M, masks):
+    """per event ("ok", get_contour(mask)) or ("exc", error class) computed directly"""
+    out = []
+    for m in masks:
+        r = guarded(M["contour"].get_contour, m)
+        out.append(("ok", np.array(r[1])) if r[0] == "ok" else r)
+    return out
+
+
+def cached_indices(obj):
+    """event indices currently cached by a LazyContourList (attribute `indices`); None when the
+    object does not expose them (the generator and the comparisons then do without)"""
+    try:
+        return [int(i) for i in obj.indices]
+    except Exception:  # noqa
+        return None
+
+
+def shrink_deques(lcl, maxev):
+    """give the contour list of ds["contour"] (fixed cache of 1000) a small cache; False when the
+    object is not built from the two deques `contours` / `indices` any more"""
+    from collections import deque
+    if not (isinstance(getattr(lcl, "contours", None), deque)
+            and isinstance(getattr(lcl, "indices", None), deque)):
+        return False
+    lcl.contours = deque(maxlen=maxev or None)
+    lcl.indices = deque(maxlen=maxev or None)
+    return True
+
+
+def gen_access_ops(rng, nm, nops, cached, failing=()):
+    """op alphabet of the access histories; `cached()` returns the currently cached indices,
+    `failing` = events whose mask has no contour (an access to them raises)"""
     ops = []
     last = 0
+    failing = list(failing)
+    alphabet = ["int", "int", "repeat", "cached", "cached", "oldest", "npint", "neg",
+                "slice", "list", "scan"]
+    if failing:
+        alphabet += ["failing", "failing", "after-failure", "after-failure"]
+    after_failure = False
+    newest = None
     for _ in range(nops):
-        k = rng.choice(["int", "int", "repeat", "cached", "cached", "oldest", "npint", "neg",
-                        "slice", "list", "scan"])
+        k = rng.choice(alphabet)
         if k == "int":
             op = ("i", rng.randrange(nm))
         elif k == "repeat":
@@ -1260,13 +1578,36 @@ def gen_access_ops(rng, nm, nops, cached):
             op = ("s", a, min(nm, a + rng.randint(0, 4)), rng.choice([1, 1, 2]))
         elif k == "list":
             op = ("l", [rng.randrange(nm) for _ in range(rng.randint(1, 4))])
+        elif k == "failing":                 # the fault point: get_contour raises inside __getitem__
+            op = ("i", rng.choice(failing))
+        elif k == "after-failure":
+            # re-access of what was requested after a failure (or an event not requested yet)
+            if after_failure and newest is not None and rng.random() < 0.7:
+                op = ("i", newest)
+            else:
+                op = ("i", rng.choice([j for j in range(nm) if j not in failing] or [0]))
         else:
             a = rng.randrange(nm)
             op = ("s", a, min(nm, a + rng.randint(3, 8)), 1)
         if op[0] in ("i", "n"):
             last = op[1] % nm
+            if last in failing:
+                after_failure = True
+            else:
+                newest = last
         ops.append(op)
         yield op
+
+
+def op_events(op, nm):
+    """the event indices an access asks for, in the order in which they are computed"""
+    if op[0] == "i":
+        return [op[1] % nm]
+    if op[0] == "n":
+        return [op[1]]
+    if op[0] == "s":
+        return list(range(nm))[op[1]:op[2]:op[3]]
+    return list(op[1])
 
 
 def apply_access(obj, op, nm):
@@ -1276,97 +1617,274 @@ def apply_access(obj, op, nm):
     if op[0] == "n":
         return [(op[1], obj[np.int64(op[1])])]
     if op[0] == "s":
-        idx = list(range(nm))[op[1]:op[2]:op[3]]
-        return list(zip(idx, obj[op[1]:op[2]:op[3]]))
+        return list(zip(op_events(op, nm), obj[op[1]:op[2]:op[3]]))
     idx = list(op[1])
     return list(zip(idx, obj[np.array(idx, dtype=int)]))
 
 
-def history_fails(M, masks, fresh, make_obj, ops):
-    """run an access history on a fresh contour list; first failure (str) or None"""
+def flat_accesses(ops, nm, failing):
+    """the integer accesses a history performs, as (key, event): an access that covers several
+    events stops at the first event without contour (the exception propagates). A negative
+    integer index is looked up and registered as given (`indices.index(-2)`), i.e. under another
+    key than its non-negative alias: key = index + 2*nm for negative indices."""
+    out = []
+    for op in ops:
+        if op[0] == "i" and op[1] < 0:
+            out.append((op[1] + 2 * nm, op[1] % nm))
+            continue
+        for e in op_events(op, nm):
+            out.append((e, e))
+            if e in failing:
+                break
+    return out
+
+
+class CountingMasks:
+    """an indexable mask container ("any structure that supports indexing") that counts how often
+    an event mask is read: LazyContourList reads a mask exactly when it computes a contour"""
+
+    def __init__(self, masks):
+        self._m = list(masks)
+        self.reads = 0
+
+    def __len__(self):
+        return len(self._m)
+
+    def __getitem__(self, i):
+        self.reads += 1
+        return self._m[i]
+
+
+def history_fails(M, masks, fresh, make_obj, ops, degenerate=(), notes=None, trace=None):
+    """run an access history on a fresh contour list; first failure (str) or None.
+    `fresh[e]` = ("ok", get_contour(mask[e])) | ("exc", class): an access that covers an event
+    without contour must raise, every other access returns the contour of ITS event.
+    `trace` (list) receives the cached indices after the history (None when not exposed)."""
     nm = len(masks)
     obj = make_obj()
     for k, op in enumerate(ops):
         r = guarded(apply_access, obj, op, nm)
+        want_exc = [e for e in op_events(op, nm) if fresh[e][0] != "ok"]
         if r[0] != "ok":
-            return f"access {k} {op} raised {r[1]}"
+            if not want_exc:
+                return f"access {k} {op} raised {r[1]}"
+            if r[1] != fresh[want_exc[0]][1] and notes is not None:
+                notes.append(f"an access to an event without contour raises {r[1]}, the direct "
+                             f"get_contour(mask) raises {fresh[want_exc[0]][1]}")
+            continue
+        if want_exc:
+            return (f"access {k} {op} returned a contour for event {want_exc[0]} although "
+                    f"get_contour(mask[{want_exc[0]}]) raises ({fresh[want_exc[0]][1]})")
         for e, c in r[1]:
             c = np.asarray(c)
-            if not np.array_equal(c, fresh[e]):
-                which = [j for j in range(nm) if np.array_equal(c, fresh[j])]
+            if not np.array_equal(c, fresh[e][1]):
+                which = [j for j in range(nm) if fresh[j][0] == "ok"
+                         and np.array_equal(c, fresh[j][1])]
                 return (f"access {k} {op}: the contour returned for event {e} is not "
                         f"get_contour(mask[{e}])" + (f" but that of event {which[0]}" if which else ""))
-            if not np.array_equal(repo_fill(M, c, masks[e].shape), masks[e]):
+            if e not in degenerate and \
+                    not np.array_equal(repo_fill(M, c, masks[e].shape), masks[e]):
                 return f"access {k} {op}: refilling the contour of event {e} does not reproduce its mask"
+    if trace is not None:
+        trace.append(cached_indices(obj))
+    return None
+
+
+def lcl_model_line(maxev, failing, nm, ops):
+    """`lclops <max_events> <keys without contour> <op> ...` (model `lclOps`): an integer index is
+    `i:<key>` — a negative index is looked up and registered as given, i.e. under another key than
+    its non-negative alias (key = index + 2*nm) —, a slice / index array is `m:<events>`"""
+    fl = sorted(failing) + [e + nm for e in sorted(failing)]
+    toks = []
+    for op in ops:
+        if op[0] == "i":
+            toks.append(f"i:{op[1] + 2 * nm if op[1] < 0 else op[1]}")
+        elif op[0] == "n":
+            toks.append(f"i:{op[1]}")
+        else:
+            toks.append("m:" + ",".join(str(e) for e in op_events(op, nm)))
+    return (f"lclops {int(maxev or 0)} " + (",".join(str(e) for e in fl) or "-") + " "
+            + " ".join(toks)).rstrip()
+
+
+def lcl_model_diff(ans, nm, ops, failing, final, reads, note=None):
+    """compare the model's run of a history with what was observed on the implementation:
+    outcome of every access and the cached events afterwards (differences -> mirror); the number of
+    contour computations (masks read) is only reported"""
+    toks, _, idx = ans.partition(" idx ")
+    outs = toks.split()
+    if len(outs) != len(ops):
+        return ("number of accesses", str(len(ops)), str(len(outs)))
+    for op, t in zip(ops, outs):
+        ev = op_events(op, nm)
+        bad = [e for e in ev if e in failing]
+        if bad:
+            if t != "x":
+                return (f"access {op} (event {bad[0]} has no contour)", "raises", t)
+        elif not t.startswith("ok:") or \
+                [int(v) % nm for v in t[3:].split(",") if v] != ev:
+            return (f"access {op}", f"contours of the events {ev}", t)
+    midx = [] if idx.strip() == "-" else [int(v) for v in idx.split(",")]
+    # compared as events (modulo the number of events): whether a negative index is registered as
+    # given or normalised first is not judged
+    if final is not None and [i % nm for i in final] != [k % nm for k in midx]:
+        return ("cached events after the history", str(final), idx)
     return None
 
 
 def part_f(ctx, M, jobs):
     dclab = common.import_dclab()
     fc = M["contour"]
-    for hno in range(ctx.n(50, 500)):
+    for hno in range(ctx.n(60, 600)):
         shape = (ctx.rng.randint(6, 10), ctx.rng.randint(6, 12))
         nm = ctx.rng.randint(3, 14)
         masks = distinct_masks(ctx.rng, nm, shape)
         nm = len(masks)
         if nm < 2:
             continue
-        fresh = [np.array(fc.get_contour(m)) for m in masks]
+        # events without contour (fault points inside __getitem__): in about half of the histories
+        # 1-3 events get a degenerate mask
+        degenerate = {}
+        if ctx.rng.random() < 0.55:
+            for e in ctx.rng.sample(range(nm), min(nm - 1, ctx.rng.randint(1, 3))):
+                kind, masks[e] = degenerate_mask(ctx.rng, shape)
+                degenerate[e] = kind
+        fresh = fresh_contours(M, masks)
+        failing = sorted(e for e in range(nm) if fresh[e][0] != "ok")
+        for e in failing:
+            if e not in degenerate:            # a mask of the domain must have a contour (part A)
+                ctx.violation("spec", f"get_contour raises {fresh[e][1]} for a connected hole-free "
+                                      f"mask of {int(masks[e].sum())} pixels",
+                              {"part": "A", "mask": masks[e].astype(int).tolist()})
         maxev = ctx.rng.choice([1, 2, 3, 4, 5, 2, 3, nm - 1, nm, nm + 3, None, 0])
-        route = ctx.rng.choice(["list", "array3d", "dataset"])
+        route = ctx.rng.choice(["list", "array3d", "dataset", "indexable"])
+        state = {"shrunk": True, "counter": None}
         if route == "dataset":
             # ds["contour"] of an in-memory dataset that only has masks; the cache size of the
             # ancillary feature is fixed (1000), so shrink its deques to exercise eviction
-            def make_obj(masks=masks, maxev=maxev):
-                from collections import deque
+            def make_obj(masks=masks, maxev=maxev, state=state):
                 ds = dclab.new_dataset({"mask": np.array(masks),
                                         "deform": np.linspace(0.01, 0.02, len(masks))})
                 lcl = ds["contour"]
-                lcl.contours = deque(maxlen=maxev or None)
-                lcl.indices = deque(maxlen=maxev or None)
-                make_obj.last = lcl
+                state["shrunk"] = shrink_deques(lcl, maxev)
+                return lcl
+        elif route == "indexable":
+            def make_obj(masks=masks, maxev=maxev, state=state):
+                cm = CountingMasks(masks)
+                lcl = fc.LazyContourList(cm, max_events=maxev)
+                cm.reads = 0                     # the constructor looks at the first mask
+                state["counter"] = cm
                 return lcl
         else:
             def make_obj(masks=masks, maxev=maxev, route=route):
                 data = np.array(masks) if route == "array3d" else list(masks)
-                lcl = fc.LazyContourList(data, max_events=maxev)
-                make_obj.last = lcl
-                return lcl
-        # the generator looks at the cache of a shadow object driven in lockstep
-        shadow = make_obj()
+                return fc.LazyContourList(data, max_events=maxev)
+        # the generator looks at the cache of a shadow object driven in lockstep (or, when the
+        # object does not expose its cached indices, at the most recent successful accesses)
+        r0 = guarded(make_obj)
+        if r0[0] != "ok":
+            ctx.violation("spec", f"contour list ({route}, {nm} events, "
+                                  f"{len(failing)} without contour) cannot be created: {r0[1]}",
+                          {"part": "F", "route": route, "max_events": maxev,
+                           "masks": [m.astype(int).tolist() for m in masks], "ops": []})
+            continue
+        shadow = r0[1]
+        recent = []
+
+        def cached(shadow=shadow, recent=recent):
+            c = cached_indices(shadow)
+            return c if c is not None else list(recent)
         ops = []
-        for op in gen_access_ops(ctx.rng, nm, ctx.rng.randint(10, 60),
-                                 lambda: list(shadow.indices)):
+        for op in gen_access_ops(ctx.rng, nm, ctx.rng.randint(10, 60), cached, failing):
             ops.append(op)
-            guarded(apply_access, shadow, op, nm)
-        bounded = maxev in (None, 0) or len(shadow.indices) <= maxev
+            if guarded(apply_access, shadow, op, nm)[0] == "ok":
+                recent.extend(op_events(op, nm))
+                del recent[:-(maxev or 1000)]
+        if route == "dataset" and not state["shrunk"]:
+            ctx.note("C18 part F: ds['contour'] is not built from the deques `contours`/`indices`; "
+                     "its cache size was left unchanged (eviction only exercised on LazyContourList)")
+        final = cached_indices(shadow)
+        if final is None:
+            ctx.note("C18 part F: the contour list does not expose `indices`; cache-size bound and "
+                     "the comparison of the cached indices with the model are skipped")
+        bounded = maxev in (None, 0) or final is None or len(final) <= maxev \
+            or (route == "dataset" and not state["shrunk"])
         ctx.stat(f"F:route={route}")
         ctx.stat("F:max_events=" + ("all" if not maxev else "<n" if maxev < nm else ">=n"))
+        ctx.stat(f"F:events-without-contour={min(len(failing), 3)}")
+        for e in failing:
+            ctx.stat(f"F:degenerate={degenerate.get(e, '?')}")
+        flat = flat_accesses(ops, nm, set(failing))
+        if failing:
+            # fault followed by a re-access of a later computed event that is still cached
+            seen_fail, later, hit = False, set(), False
+            for _k, e in flat:
+                if e in failing:
+                    seen_fail = True
+                elif seen_fail:
+                    hit = hit or e in later
+                    later.add(e)
+            ctx.stat("F:re-access-after-failure" if hit else "F:no-re-access-after-failure")
         ctx.case(("F", route, maxev, tuple(m.tobytes() for m in masks), repr(ops)),
                  nontrivial=bool(maxev) and maxev < nm,
                  sample={"part": "F", "route": route, "events": nm, "max_events": maxev,
+                         "without_contour": failing,
                          "ops": [list(map(str, o)) for o in ops[:8]]} if hno == 0 else None)
-        r = guarded(history_fails, M, masks, fresh, make_obj, ops)
+        notes, trace = [], []
+        r = guarded(history_fails, M, masks, fresh, make_obj, ops, degenerate, notes, trace)
+        for t in notes[:1]:
+            ctx.note("C18 part F: " + t + " (exception classes are not part of the property)")
         bad = r[1] if r[0] == "ok" else f"history evaluation raised {r[1]}"
+        reads = state["counter"].reads if state["counter"] is not None else None
         if bad is None and not bounded:
-            bad = f"more than max_events={maxev} contours are kept ({len(shadow.indices)})"
+            bad = f"more than max_events={maxev} contours are kept ({len(final)})"
+        if bad is None and trace and (route != "dataset" or state["shrunk"]):
+            # impl-mirror: the Lean model of the two deques with failing events (`lclGet`)
+            rpm = {"part": "F", "route": route, "max_events": maxev,
+                   "masks": [m.astype(int).tolist() for m in masks],
+                   "degenerate": sorted(degenerate), "ops": [list(o) for o in ops]}
+
+            def cbl(ans, nm=nm, ops=list(ops), failing=set(failing), final=trace[0], rpm=rpm):
+                d = lcl_model_diff(ans, nm, ops, failing, final, None)
+                if d:
+                    return ("LazyContourList history vs model: " + d[0], d[1], d[2], rpm)
+            jobs.add(lcl_model_line(maxev, failing, nm, ops), cbl)
+            # integer-access model (`lclRun`) on the flattened history: computed / hit / raised
+            def cbf(ans, flat=flat, failing=set(failing), nm=nm, reads=reads, rpm=rpm):
+                outs = ans.partition(" idx ")[0].split()
+                if len(outs) != len(flat):
+                    return ("flattened history vs model: number of accesses", str(len(flat)),
+                            str(len(outs)), rpm)
+                for (k, e), t in zip(flat, outs):
+                    if (t == "x") != (e in failing) or (t != "x" and int(t[2:]) % nm != e):
+                        return (f"flattened history vs model: access to event {e}", "own contour"
+                                if e not in failing else "raises", t, rpm)
+                computed = sum(1 for t in outs if t == "x" or t.startswith("c:"))
+                if reads is not None and reads != computed:
+                    ctx.note(f"C18 part F: a history read {reads} masks where the model computes "
+                             f"{computed} contours (how often a mask is read is not part of the "
+                             f"property; reported only)")
+            fl = sorted(failing) + [e + nm for e in sorted(failing)]
+            jobs.add((f"lcl {int(maxev or 0)} " + (",".join(str(e) for e in fl) or "-") + " "
+                      + " ".join(str(k) for k, _ in flat)).rstrip(), cbf)
         if bad:
             small = ops
             if r[0] == "ok" and r[1]:
-                small = common.ddmin(ops, lambda o: history_fails(M, masks, fresh, make_obj, o)
-                                     is not None)
-                bad = history_fails(M, masks, fresh, make_obj, small) or bad
+                small = common.ddmin(ops, lambda o: history_fails(M, masks, fresh, make_obj, o,
+                                                                  degenerate) is not None)
+                bad = history_fails(M, masks, fresh, make_obj, small, degenerate) or bad
             ctx.violation("spec", f"contour access history ({route}, max_events={maxev}, "
-                                  f"{nm} events): {bad}",
+                                  f"{nm} events, {len(failing)} without contour): {bad}",
                           {"part": "F", "route": route, "max_events": maxev,
                            "masks": [m.astype(int).tolist() for m in masks],
+                           "degenerate": sorted(degenerate),
                            "ops": [list(o) for o in small]})
     # datasets larger than the default cache of ds["contour"] (1000 events), untouched deques
     for rep in range(ctx.n(1, 3)):
         nm = 1000 + ctx.rng.randint(20, 120)
         masks = distinct_masks(ctx.rng, nm, (7, 9))
         nm = len(masks)
-        fresh = [np.array(fc.get_contour(m)) for m in masks]
+        fresh = fresh_contours(M, masks)
 
         def make_ds(masks=masks):
             ds = dclab.new_dataset({"mask": np.array(masks),
@@ -1397,7 +1915,7 @@ def part_f(ctx, M, jobs):
                     apply_access(ds["contour"], op, len(masks))
                 return np.array(ds["inert_ratio_raw"][:])
             d = guarded(derived)
-            want = np.array([M["inert"].get_inert_ratio_raw(c) for c in fresh])
+            want = np.array([M["inert"].get_inert_ratio_raw(c[1]) for c in fresh])
             if d[0] != "ok":
                 bad = f"ds['inert_ratio_raw'] raised {d[1]} after an access history"
             elif not np.allclose(d[1], want, rtol=1e-12, atol=0, equal_nan=True):
@@ -1429,6 +1947,10 @@ def run(ctx):
         return                      # budgets were already multiplied by 10 (ctx.n)
     # pre-fix model of `if bg_off:` (documentation of F19 in the evidence)
     jobs.add("truth arr 3 1", lambda a: None if a == "raises" else ("truthOf", "raises", a, {}))
+    # the witness history of `early_registration_wrong_witness` (event 1 has no contour): today's
+    # code follows `lclGet`, not the early-registration variant
+    jobs.add("lcl 0 1 1 2 3 2", lambda a: None if a == "x c:2 c:3 h:2 idx 2,3,2" else (
+        "lclGet on the witness history", "x c:2 c:3 h:2 idx 2,3,2", a, {}))
     out = ctx.lean("C18", jobs.lines)
     diffs = []
     for line, cb, ans in zip(jobs.lines, jobs.cbs, out):
@@ -1469,10 +1991,9 @@ def replay(ctx, data):
     elif part == "A":
         fails = contour_oracle(M, np.array(p["mask"], dtype=bool))[0]
     elif part == "F":
-        from collections import deque
         dclab = common.import_dclab()
         masks = [np.array(m, dtype=bool) for m in p["masks"]]
-        fresh = [np.array(M["contour"].get_contour(m)) for m in masks]
+        fresh = fresh_contours(M, masks)
         maxev = p["max_events"]
 
         def make_obj():
@@ -1480,13 +2001,13 @@ def replay(ctx, data):
                 ds = dclab.new_dataset({"mask": np.array(masks),
                                         "deform": np.linspace(0.01, 0.02, len(masks))})
                 lcl = ds["contour"]
-                lcl.contours = deque(maxlen=maxev or None)
-                lcl.indices = deque(maxlen=maxev or None)
+                shrink_deques(lcl, maxev)
                 return lcl
-            data = np.array(masks) if p["route"] == "array3d" else list(masks)
+            data = np.array(masks) if p["route"] == "array3d" else \
+                CountingMasks(masks) if p["route"] == "indexable" else list(masks)
             return M["contour"].LazyContourList(data, max_events=maxev)
         ops = [tuple(o) for o in p["ops"]]
-        f = history_fails(M, masks, fresh, make_obj, ops)
+        f = history_fails(M, masks, fresh, make_obj, ops, set(p.get("degenerate", ())))
         fails = [f] if f else []
     elif part == "A-dedup":
         pts = [tuple(q) for q in p["points"]]
